@@ -15,10 +15,13 @@ LEVEL = "exploration"
 RULE = (
     "Latent off: all 1440 minutes x notations {HH:MM, H:MM, HHhMM, 'HH.MM uhr', 'HH:MM uhr', h:mm am/pm in 6 spellings, HHMM (minutes divisible by 5: the documented military heuristic), "
     "'H uhr'/'Hh'/'H o'clock'/'h am|pm' for full hours}; every named-hour spelling x {bare, o'clock/uhr, quarter/half before/after phrases}; hours 1-12 x 'in the <part of day>' for every "
-    "single-reading part-of-day spelling.  Expected: that hour and minute, no date.  Latent on: 48 clock times x 2 notations x reference minutes {requested-1, requested, requested+1} on 5 days "
+    "single-reading part-of-day spelling; 'H Uhr MM' with blanks for all 1440 minutes; spoken fractions (quarter/half before/after, digits and number words, hours 1-12) followed by an English / followed or preceded by a German part of day; "
+    "hour 0 at night; 'uhr|h|HH:MM uhr am <Tageszeit>'.  Expected: that hour and minute, no date.  Latent on: 48 clock times x 2 notations x reference minutes {requested-1, requested, requested+1} on 5 days "
     "(ordinary, 31 Dec, 28 Feb, 29 Feb, month end): expected the first such time strictly after the reference minute.  Non-trivial = all judged cases except bare HH:MM; distinct = distinct (text, ts, latent)."
 )
 ASSUMPTIONS = [
+    "'<clock> <part of day>': afternoon/evening/night move an hour 1-11 into the second half of the day, also for night ('3 at night' = 15:00: the code's convention, kept); the hour after midnight stays at night (0 uhr nachts, quarter to one at night = 00:45); '12 <fraction> at night / in the morning' is not used",
+    "hybrids of two notations ('8 uhr pm', '1200 uhr am mittag', 'eight pm') are not part of the enumerated notations",
     "12 am = 00, 12 pm = 12 (stated by the property); 'half <hour>' / 'halb <hour>' mean half before the hour (the code's convention, kept)",
     "bare dotted 'H.MM' is not used (reads as day.month); four-digit notation only within the documented heuristic",
 ]
